@@ -12,12 +12,12 @@ SHAPES_Q = ['L', 'C', 'LL', 'QC', 'CL', 'LQC', 'CLL']
 SHAPES = [{'kinds': k} for k in SHAPES_Q]
 
 
-def mkpath(c, kinds, continuous=False):
+def mkpath(c, kinds, continuous=False, prefix='s'):
     segs, pts = [], []
     prev_end = None
     for i, k in enumerate(kinds):
         qual, n = KIND[k]
-        P = [c.cplx('s%d_P%d' % (i, j)) for j in range(n)]
+        P = [c.cplx('%s%d_P%d' % (prefix, i, j)) for j in range(n)]
         if continuous and prev_end is not None:
             P[0] = prev_end
         prev_end = P[-1]
